@@ -7,7 +7,7 @@ export PYTHONPATH="$HERE/harness:/repo/src"
 import sys; sys.path.insert(0,'harness')
 import framework as F
 F.setup_paths()
-ok,msg,t=F.translate_constants()
-print('constants:', 'ok' if ok else msg)
+ok,msg,t,stale=F.translate_constants()
+print('constants:', ('ok' if not stale else 'ok, not re-extracted: '+', '.join(stale)) if ok else msg)
 " || exit 1
 cd lean && lake build 2>&1 | tail -5
